@@ -520,7 +520,22 @@ def rw_R3b(rf, a, b):
     return out
 
 
-REWRITES = {"R21": rw_R21, "R8": rw_R8, "R22": rw_R22, "R3b": rw_R3b, "R20": rw_R20, "R19": rw_R19, "R18": rw_R18, "R2b": rw_R2b, "R15": rw_R15, "R2": rw_R2, "R7": rw_R7, "R3": rw_R3, "R1": rw_R1, "R4": rw_R4, "R5": rw_R5, "R10": rw_R10, "R13": rw_R13, "R14": rw_R14}
+
+def rw_R5b(rf, a, b):
+    """Vec::with_capacity(n) -> verif_vec_with_capacity(n);  v.resize(n, x) -> verif_vec_resize(&mut v, n, x);  v.reserve(n) ->
+    verif_vec_reserve(&mut v, n): the other ways to allocate a length-proportional buffer carry the same resource
+    precondition as vec![e; n] (C14)"""
+    toks, sg, out = rf.toks, _sig(rf.toks, a, b), []
+    for k, i in enumerate(sg):
+        if toks[i].text == "Vec" and _seq_at(toks, sg, k + 1, [":", ":", "with_capacity", "("]):
+            out.append((Edit(i, sg[k + 3] + 1, "verif_vec_with_capacity", ("gen", "R5b")), "R5b %s:%d Vec::with_capacity -> verif_vec_with_capacity" % (rf.rel, toks[i].line)))
+        if toks[i].text in ("resize", "reserve") and toks[sg[k - 1]].text == "." and toks[sg[k + 1]].text == "(" and toks[sg[k - 2]].kind == "ident" and toks[sg[k - 3]].text not in (".", ":"):
+            recv = toks[sg[k - 2]]
+            out.append((Edit(sg[k - 2], sg[k + 1] + 1, "verif_vec_%s(&mut %s, " % (toks[i].text, recv.text), ("gen", "R5b")), "R5b %s:%d %s.%s(..) -> verif_vec_%s(&mut %s, ..)" % (rf.rel, toks[i].line, recv.text, toks[i].text, toks[i].text, recv.text)))
+    return out
+
+
+REWRITES = {"R5b": rw_R5b, "R21": rw_R21, "R8": rw_R8, "R22": rw_R22, "R3b": rw_R3b, "R20": rw_R20, "R19": rw_R19, "R18": rw_R18, "R2b": rw_R2b, "R15": rw_R15, "R2": rw_R2, "R7": rw_R7, "R3": rw_R3, "R1": rw_R1, "R4": rw_R4, "R5": rw_R5, "R10": rw_R10, "R13": rw_R13, "R14": rw_R14}
 
 
 # --------------------------------------------------------------------------------------------
